@@ -20,6 +20,8 @@ import (
 	"golang.org/x/tools/go/ssa"
 )
 
+var debugAlloc = os.Getenv("GOSYM_DEBUG_ALLOC") != ""
+
 type continuation int
 
 const (
@@ -70,6 +72,7 @@ type interpreter struct {
 	curFrame  *frame
 	poisoned  []string
 	namedCache map[string]types.Type
+	initGlobals map[*ssa.Package]map[*ssa.Global]bool
 }
 
 type fnAction struct {
@@ -124,9 +127,55 @@ func (i *interpreter) global(g *ssa.Global) *value {
 	if r, ok := i.globals[g]; ok {
 		return r
 	}
+	if i.inInit == 0 && g.Pkg != nil && !i.initAllow[g.Pkg.Pkg.Path()] && i.needsInit(g) {
+		panic(engineFault{"access to global " + g.String() + " whose package initialiser is not executed (add the package to the init whitelist)"})
+	}
 	cell := zero(deref(g.Type()))
 	i.globals[g] = &cell
 	return &cell
+}
+
+// needsInit reports whether the package initialiser refers to g (i.e. g has an initialiser).
+func (i *interpreter) needsInit(g *ssa.Global) bool {
+	set, ok := i.initGlobals[g.Pkg]
+	if !ok {
+		set = make(map[*ssa.Global]bool)
+		seen := make(map[*ssa.Function]bool)
+		var scan func(f *ssa.Function)
+		scan = func(f *ssa.Function) {
+			if f == nil || seen[f] {
+				return
+			}
+			seen[f] = true
+			var ops []*ssa.Value
+			for _, b := range f.Blocks {
+				for _, in := range b.Instrs {
+					ops = in.Operands(ops[:0])
+					for _, op := range ops {
+						if gg, ok := (*op).(*ssa.Global); ok {
+							set[gg] = true
+						}
+					}
+					// user-written init functions and anonymous initialiser closures
+					if c, ok := in.(*ssa.Call); ok {
+						if callee := c.Call.StaticCallee(); callee != nil && callee.Pkg == g.Pkg &&
+							(strings.HasPrefix(callee.Name(), "init#") || callee.Parent() != nil) {
+							scan(callee)
+						}
+					}
+				}
+			}
+			for _, an := range f.AnonFuncs {
+				scan(an)
+			}
+		}
+		scan(g.Pkg.Func("init"))
+		if i.initGlobals == nil {
+			i.initGlobals = make(map[*ssa.Package]map[*ssa.Global]bool)
+		}
+		i.initGlobals[g.Pkg] = set
+	}
+	return set[g]
 }
 
 func deref(t types.Type) types.Type {
@@ -347,6 +396,11 @@ func visitInstr(fr *frame, instr ssa.Instruction) continuation {
 			addr = fr.env[instr].(*value)
 		}
 		*addr = zero(deref(instr.Type()))
+		if debugAlloc {
+			if a, ok := deref(instr.Type()).Underlying().(*types.Array); ok && a.Len() > 512 {
+				fmt.Fprintf(os.Stderr, "big alloc %d in %s\n", a.Len(), fr.fn)
+			}
+		}
 
 	case *ssa.MakeSlice:
 		fr.env[instr] = makeSlice(fr, instr)
@@ -601,6 +655,27 @@ func runInitFrame(fr *frame) {
 						if v, isVal := instr.(ssa.Value); isVal {
 							fr.env[v] = poison{fmt.Sprint(r)}
 							k = kNext
+							return
+						}
+						switch instr.(type) {
+						case *ssa.If, *ssa.Jump, *ssa.Return, *ssa.Panic:
+							// control flow of the initialiser depends on something the engine could
+							// not run: give up on this package; every global with an initialiser
+							// that is still untouched becomes poison.
+							why := fmt.Sprint(r)
+							fr.i.poisoned = append(fr.i.poisoned, fr.fn.String()+": control flow on unavailable value: "+why)
+							probe := &ssa.Global{}
+							_ = probe
+							for _, m := range fr.fn.Pkg.Members {
+								if g, ok := m.(*ssa.Global); ok && fr.i.needsInit(g) {
+									if _, touched := fr.i.globals[g]; !touched {
+										cell := value(poison{"initialiser of " + g.String() + " not reached: " + why})
+										fr.i.globals[g] = &cell
+									}
+								}
+							}
+							fr.block = nil
+							k = kReturn
 							return
 						}
 						k = kNext
